@@ -105,7 +105,7 @@ func c08CutRun(c c07Case) Verdict {
 		if c.Cut > sp.start && c.Cut < sp.end {
 			v.NonTrivial = true
 			v.Classes = append(v.Classes, "cut_inside_command_line")
-			if c.Fault == "eof" && o.perr == nil && len(o.replies) > sp.expBefore {
+			if c.Fault != "abort" && o.perr == nil && len(o.replies) > sp.expBefore {
 				return failf("truncated-line-executed", "stream cut at %d, inside the command line %s, of which only %s arrived before the peer disconnected: it was answered all the same (%d replies where the complete commands account for %d; the extra one: %s)",
 					c.Cut, q(b.stream[sp.start:sp.end]), q(b.stream[sp.start:c.Cut]), len(o.replies), sp.expBefore, o.replies[len(o.replies)-1])
 			}
@@ -559,7 +559,7 @@ func TestC08(t *testing.T) {
 		rapid.Check(t, func(rt *rapid.T) {
 			spec := genConvSpec(rt)
 			b := buildConv(spec)
-			fault := rapid.SampledFrom([]string{"eof", "abort"}).Draw(rt, "fault")
+			fault := rapid.SampledFrom([]string{"eof", "abort", "eof-with-data"}).Draw(rt, "fault")
 			for cut := 0; cut <= len(b.stream); cut++ {
 				if v := c08Cuts.eval(c07Case{Conv: spec, Cut: cut, Fault: fault}); v.Fail != "" {
 					rt.Fatalf("C08/cuts: %s", v.Fail)
